@@ -376,11 +376,18 @@ def shrink_script(impl, model, script, verdict):
 
 
 def first_divergence(a, b):
+    """first differing property observable (else first differing bookkeeping token)"""
     ta, tb = a.split(), b.split()
+    book = None
     for i, (x, y) in enumerate(zip(ta, tb)):
         if x != y and y not in ('?', 'v?'):
-            return 'token %d: implementation %s, model %s' % (i, x, y)
-    return 'lengths differ: implementation %d tokens, model %d' % (len(ta), len(tb))
+            d = 'token %d: implementation %s, model %s' % (i, x, y)
+            if not (x.startswith('#') and y.startswith('#')):
+                return d
+            book = book or d + ' (bookkeeping)'
+    if len(ta) != len(tb):
+        return 'lengths differ: implementation %d tokens, model %d' % (len(ta), len(tb))
+    return book or 'no difference'
 
 
 # ------------------------------------------------------------------ the check
